@@ -22,6 +22,7 @@ def obj(k): return {"e": "obj", "k": k}
 def call(k, *args): return {"e": "call", "k": k, "args": list(args)}
 def lam(x): return {"e": "lambda", "x": x}
 def comp(v, k, x): return {"e": "comp", "v": v, "k": k, "x": x}
+def comp2(v, w, k): return {"e": "comp2", "v": v, "w": w, "k": k}      # [w for v in IT(k) for w in (v, v)]
 def const(c): return {"e": "const", "c": c}
 
 def assign(targets, e): return {"s": "assign", "targets": targets if isinstance(targets, list) else [targets], "e": e}
@@ -80,6 +81,9 @@ def p_expr(e, twin):
         return f"(lambda: {p_expr(e['x'], twin)})()"
     if k == "comp":
         return f"[{p_expr(e['x'], twin)} for {e['v']} in IT({e['k']})]"
+    if k == "comp2":
+        # two for-clauses: the second iterable reads the first clause's loop variable (a name of the comprehension's own scope)
+        return f"[{e['w']} for {e['v']} in IT({e['k']}) for {e['w']} in ({e['v']}, {e['v']})]"
     if k == "const":
         return repr(e["c"])
     if k == "acc":
